@@ -583,3 +583,7 @@ def wmc_truncating(ctx, prog):
 wmc_truncating.rule_id = "C11.WMC-truncating"
 
 RULES = [sign_handlers, sign_heaps, wmw_markers, guard_stats, dom_invalidate, dom_bracket, data_swap, heights_edge_ends, wmc_truncating]
+
+# control signature of the bookkeeping effects this property depends on (rules/ctrlsig.py)
+from .ctrlsig import make_rule as _ctrl_rule  # noqa: E402
+RULES.append(_ctrl_rule("C11"))
